@@ -16,7 +16,7 @@ SERVER_HELPERS = ['emit', 'send', 'call', 'enter_room', 'leave_room',
                   'session', 'disconnect']
 CLIENT_HELPERS = ['emit', 'send', 'call', 'disconnect']
 FALSY = [0, '', False, [], 0.0, (), {}]
-REG_NAMESPACES = ['/reg', '/', '/x/y', '/é']
+REG_NAMESPACES = ['/reg', '/', '/x/y', '/é', '*']
 
 
 class Sentinel:
@@ -63,8 +63,16 @@ def run_kind(ctx, kind, loop):
                                'bound_to': repr(bound)})
             dict.__setitem__(self_, key, value)
     target.namespace_handlers = Registry(target.namespace_handlers)
+    # the same namespace object may have been registered with another server /
+    # client before (an application factory, a fresh Client per attempt): the
+    # helpers must reach the one it is registered with *now*
+    decoy = make_target(kind)[0]
+    stray = []
     for reg in REG_NAMESPACES:
         nsobj = ns_cls(reg)
+        if reg in ('/x/y', '*'):
+            decoy.register_namespace(nsobj)
+            ctx.count('re_registrations')
         target.register_namespace(nsobj)
         for helper in helpers:
             if not hasattr(nsobj, helper):
@@ -94,11 +102,30 @@ def run_kind(ctx, kind, loop):
                     return co()
                 return _res
             setattr(target, helper, recorder)
+
+            def stray_rec(*a, _h=helper, _co=is_co, **k):
+                stray.append(_h)
+                if _co:
+                    async def co():
+                        return None
+                    return co()
+                return None
+            setattr(decoy, helper, stray_rec)
             try:
                 explore_helper(ctx, kind, helper, nsobj, reg, real_params,
                                calls, result, loop)
             finally:
                 delattr(target, helper)
+                delattr(decoy, helper)
+            if stray:
+                ctx.violation(None, '%s.%s of a namespace object that had '
+                              'been registered with another %s before '
+                              'reached that earlier one' % (
+                                  kind, helper, type(target).__name__),
+                              {'class': kind, 'helper': helper,
+                               'registered_namespace': reg})
+                del stray[:]
+                return
             if ctx.too_many_violations():
                 return
 
